@@ -1622,6 +1622,8 @@ pub fn run(args: &Args, out: &mut Out) {
                 vec::run_vex_request(&line, out, &mut hist);
             } else if line.starts_with("C02.dup\t") {
                 vec::dupcast::run_request(&line, out, &mut hist);
+            } else if line.starts_with("C02.call\t") {
+                vec::callargs::run_request(&line, out, &mut hist);
             }
         }
         out.stat(&format!("{{\"mode\":\"replay\",\"hist\":{}}}", hist.json()));
